@@ -41,6 +41,13 @@ Proof.
   - destruct (k' =? a); auto.
 Qed.
 
+Lemma lookup_mremove_eq {A} k (m : list (N * A)) : lookup k (mremove k m) = None.
+Proof.
+  induction m as [| [a v] m IH]; simpl; auto.
+  destruct (a =? k) eqn:E; simpl; auto.
+  destruct (k =? a) eqn:E2; auto. apply N.eqb_eq in E2. subst. rewrite N.eqb_refl in E. discriminate.
+Qed.
+
 Lemma lookup_mset_eq {A} k (v : A) m : lookup k (mset k v m) = Some v.
 Proof. unfold mset. simpl. rewrite N.eqb_refl. reflexivity. Qed.
 
@@ -107,12 +114,18 @@ Definition J (ch : list block) (pers : list (N * window)) (w : window) (a : N) :
      exists pw, lookup ws pers = Some pw /\ w_from pw = ws /\ covers pw ch ws (ws + W)) /\
   w_from w = aligned a /\ covers w ch (w_from w) a.
 
+(* persisted windows are keyed by aligned numbers and lie entirely below height a *)
+Definition K (pers : list (N * window)) (a : N) : Prop :=
+  forall k pw, lookup k pers = Some pw -> k mod W = 0 /\ k + W <= a.
+
 Lemma rinv_J s : rinv W s <-> exists w nx, running s = Ready w nx /\ nx = lenN (chain s) /\
-                                       J (chain s) (persisted s) w (lenN (chain s)).
+                                       J (chain s) (persisted s) w (lenN (chain s)) /\
+                                       K (persisted s) (lenN (chain s)).
 Proof.
-  unfold rinv, disk_inv, run_inv, J. split.
-  - intros [Hd [w [nx [Hr [Hn [Hf Hc]]]]]]. exists w, nx. subst nx. repeat split; auto.
-  - intros [w [nx [Hr [Hn [Hd [Hf Hc]]]]]]. split; auto. exists w, nx. subst nx. repeat split; auto.
+  unfold rinv, disk_inv, keys_inv, run_inv, J, K. split.
+  - intros [Hd [Hk [w [nx [Hr [Hn [Hf Hc]]]]]]]. exists w, nx. subst nx. repeat split; auto; apply (Hk _ _ H).
+  - intros [w [nx [Hr [Hn [[Hd [Hf Hc]] Hk]]]]]. split; auto. split; auto.
+    exists w, nx. subst nx. repeat split; auto.
 Qed.
 
 Lemma mod_add_W a : a mod W = 0 -> (a + W) mod W = 0.
@@ -180,20 +193,37 @@ Proof.
     + rewrite Hf'. auto.
 Qed.
 
-Lemma fill_spec ch : forall k a pers w nx0,
-  J ch pers w a -> a + N.of_nat k <= lenN ch ->
-  exists pers' w', fill W ch (seqN a k) pers w nx0 = Some (pers', w', if Nat.eqb k 0 then nx0 else a + N.of_nat k) /\
-                   J ch pers' w' (a + N.of_nat k).
+Lemma rf_insert_K pers w ks a pers' w' nx' :
+  rf_insert W pers w ks a = Some (pers', w', nx') -> w_from w = aligned a -> K pers a -> K pers' (a + 1).
 Proof.
-  induction k as [| k IH]; intros a pers w nx0 HJ Hle.
+  unfold rf_insert. intros H Hf HK.
+  pose proof (aligned_le W Wpos a) as Hle. pose proof (aligned_lt W Wpos a) as Hlt.
+  destruct (w_insert W w a ks) as [w2 |] eqn:Ei; [| discriminate].
+  destruct (w_insert_props _ _ _ _ Ei) as [Hf' _].
+  unfold Model.w_to in H. rewrite Hf', Hf in H.
+  destruct (a =? aligned a + W - 1) eqn:Eto; inversion H; subst; clear H.
+  - apply N.eqb_eq in Eto. intros k pw Hl.
+    destruct (N.eq_dec k (aligned a)) as [-> | Hne].
+    + split; [apply aligned_mod; auto | lia].
+    + rewrite lookup_mset_ne in Hl by auto. destruct (HK _ _ Hl). split; auto. lia.
+  - intros k pw Hl. destruct (HK _ _ Hl). split; auto. lia.
+Qed.
+
+Lemma fill_spec ch : forall k a pers w nx0,
+  J ch pers w a -> K pers a -> a + N.of_nat k <= lenN ch ->
+  exists pers' w', fill W ch (seqN a k) pers w nx0 = Some (pers', w', if Nat.eqb k 0 then nx0 else a + N.of_nat k) /\
+                   J ch pers' w' (a + N.of_nat k) /\ K pers' (a + N.of_nat k).
+Proof.
+  induction k as [| k IH]; intros a pers w nx0 HJ HK Hle.
   - simpl. exists pers, w. split; auto. rewrite N.add_0_r. auto.
   - simpl seqN. cbn [fill].
     assert (Ha : a < lenN ch) by lia.
     apply N.ltb_lt in Ha. rewrite Ha. apply N.ltb_lt in Ha.
     destruct (rf_insert_step ch pers w a HJ Ha) as [p' [w' [Hi HJ']]].
+    assert (HK' : K p' (a + 1)) by (apply (rf_insert_K _ _ _ _ _ _ _ Hi); auto; apply HJ).
     rewrite Hi.
     replace (N.succ a) with (a + 1) by lia.
-    destruct (IH (a + 1) p' w' (a + 1) HJ') as [p2 [w2 [Hfill HJ2]]]; [lia |].
+    destruct (IH (a + 1) p' w' (a + 1) HJ' HK') as [p2 [w2 [Hfill HJ2]]]; [lia |].
     exists p2, w2. rewrite Hfill.
     replace (a + 1 + N.of_nat k) with (a + N.of_nat (S k)) in * by lia.
     split; auto. f_equal. f_equal.
@@ -235,12 +265,12 @@ Lemma ensure_ready s w nx : running s = Ready w nx -> ensure W s = s.
 Proof. unfold ensure. intros ->. reflexivity. Qed.
 
 Lemma rinv_ready s : rinv W s -> exists w nx, running s = Ready w nx.
-Proof. intros [_ [w [nx [H _]]]]. eauto. Qed.
+Proof. intros [_ [_ [w [nx [H _]]]]]. eauto. Qed.
 
 Lemma rinv_ext s s' :
   chain s' = chain s -> persisted s' = persisted s -> running s' = running s -> rinv W s -> rinv W s'.
 Proof.
-  intros Hc Hp Hr H. unfold rinv, disk_inv, run_inv in *. rewrite Hc, Hp, Hr. auto.
+  intros Hc Hp Hr H. unfold rinv, disk_inv, keys_inv, run_inv in *. rewrite Hc, Hp, Hr. auto.
 Qed.
 
 Lemma ensure_chain s : chain (ensure W s) = chain s.
@@ -272,7 +302,7 @@ Qed.
 Lemma store_inv s b : inv s -> inv (fst (do_store W s b)).
 Proof.
   unfold inv, do_store. intros Hi. set (s1 := ensure W s) in *.
-  destruct (proj1 (rinv_J s1) Hi) as [w [nx [Hr [Hnx HJ]]]]. rewrite Hr.
+  destruct (proj1 (rinv_J s1) Hi) as [w [nx [Hr [Hnx [HJ HK]]]]]. rewrite Hr.
   assert (HJ' : J (chain s1 ++ [b]) (persisted s1) w (lenN (chain s1))).
   { apply (J_chain_ext (chain s1) (chain s1 ++ [b])); [| exact HJ]. intros n Hn. apply nthN_app_lt. auto. }
   destruct (rf_insert_step (chain s1 ++ [b]) (persisted s1) w (lenN (chain s1)) HJ')
@@ -280,7 +310,8 @@ Proof.
   { rewrite lenN_app. lia. }
   rewrite nthN_app_eq in Hins. rewrite Hins. simpl.
   apply rinv_J. simpl. exists w', (lenN (chain s1) + 1). rewrite lenN_app.
-  split; [reflexivity | split; [reflexivity | exact HJ2]].
+  split; [reflexivity | split; [reflexivity | split; [exact HJ2 |]]].
+  apply (rf_insert_K _ _ _ _ _ _ _ Hins); auto. apply HJ.
 Qed.
 
 (* Revert *)
@@ -290,8 +321,8 @@ Proof.
   destruct (chain s) as [| b0 ch0] eqn:Ech; auto.
   set (s1 := ensure W s) in *.
   assert (Hch : chain s1 = chain s) by apply ensure_chain.
-  destruct (proj1 (rinv_J s1) Hi) as [w [nx [Hr [Hnx [Hd [Hf Hc]]]]]]. rewrite Hr.
-  rewrite <- Hnx in Hd, Hf, Hc.
+  destruct (proj1 (rinv_J s1) Hi) as [w [nx [Hr [Hnx [[Hd [Hf Hc]] HK]]]]]. rewrite Hr.
+  rewrite <- Hnx in Hd, Hf, Hc, HK.
   assert (Hne : chain s1 <> []) by (rewrite Hch, Ech; discriminate).
   assert (Hlen : 1 <= lenN (chain s1)).
   { rewrite Hch, Ech. unfold lenN. cbn [length]. lia. }
@@ -318,7 +349,7 @@ Proof.
     apply rinv_J. simpl. eexists _, (nx - 1). split; [reflexivity |].
     rewrite lenN_removelast by auto. split; [lia |].
     replace (lenN (chain s1) - 1) with (nx - 1) by lia.
-    split; [| split].
+    split; [split; [| split] |].
     + intros ws Hws Hle. destruct (Hd ws Hws) as [pw [Hp [Hpf Hpc]]]; [lia |].
       exists pw. rewrite lookup_mremove_ne by lia. repeat split; auto.
       apply (covers_chain_ext pw (chain s1) _ ws (ws + W)); auto. intros n Hn. apply nthN_removelast. unfold block, tx in *; lia.
@@ -326,6 +357,10 @@ Proof.
     + simpl. intros n Hn k Hk.
       rewrite col_filter_ne by lia.
       apply Hlc; [lia |]. rewrite <- nthN_removelast by (unfold block, tx in *; lia). auto.
+    + (* the persisted copy of the re-entered window is gone, every other key lies below it *)
+      intros k pw Hlk. destruct (N.eq_dec k (nx - W)) as [-> | Hne].
+      * rewrite lookup_mremove_eq in Hlk. discriminate.
+      * rewrite lookup_mremove_ne in Hlk by auto. destruct (HK _ _ Hlk). split; auto. lia.
   - apply N.eqb_neq in Eb.
     assert (Hlt : w_from w < nx) by lia.
     unfold w_clear, in_window, Model.w_to.
@@ -335,28 +370,32 @@ Proof.
     apply rinv_J. simpl. eexists _, (nx - 1). split; [reflexivity |].
     rewrite lenN_removelast by auto. split; [lia |].
     replace (lenN (chain s1) - 1) with (nx - 1) by lia.
-    split; [| split].
+    split; [split; [| split] |].
     + intros ws Hws Hle. destruct (Hd ws Hws) as [pw [Hp [Hpf Hpc]]]; [lia |].
       exists pw. repeat split; auto.
       apply (covers_chain_ext pw (chain s1) _ ws (ws + W)); auto. intros n Hn. apply nthN_removelast. unfold block, tx in *; lia.
     + simpl. rewrite Hf. symmetry. apply aligned_of_mult; auto. lia.
     + simpl. intros n Hn k Hk. rewrite col_filter_ne by lia.
       apply Hc; [lia |]. rewrite <- nthN_removelast by (unfold block, tx in *; lia). auto.
+    + intros k pw Hl. destruct (HK _ _ Hl) as [Hkm Hkl]. split; auto.
+      destruct (N.eq_dec (k + W) nx) as [E' | E']; [| lia].
+      exfalso. assert (nx mod W = 0) by (rewrite <- E'; apply mod_add_W; auto).
+      rewrite (aligned_idem W Wpos nx H) in Hf. lia.
 Qed.
 
 (* graceful restart: the snapshot just written is taken as it is *)
 Lemma restart_graceful_inv s : inv s -> inv (do_restart W s true).
 Proof.
   unfold inv, do_restart. intros Hi. set (s1 := ensure W s) in *.
-  destruct (proj1 (rinv_J s1) Hi) as [w [nx [Hr [Hnx HJ]]]]. rewrite Hr. simpl.
+  destruct (proj1 (rinv_J s1) Hi) as [w [nx [Hr [Hnx [HJ HK]]]]]. rewrite Hr. simpl.
   unfold ensure. simpl. unfold init_rf. simpl.
   destruct (chain s1) as [| b0 ch0] eqn:Ech.
   - apply rinv_J. simpl. exists (empty_window 0), 0.
-    split; [reflexivity | split; [reflexivity | apply J_empty]].
+    split; [reflexivity | split; [reflexivity | split; [apply J_empty | exact HK]]].
   - assert (E : nx =? lenN (b0 :: ch0) - 1 + 1 = true).
     { apply N.eqb_eq. rewrite Hnx. unfold lenN. cbn [length]. lia. }
     rewrite E. apply rinv_J. simpl. exists w, nx.
-    split; [reflexivity | split; [exact Hnx | exact HJ]].
+    split; [reflexivity | split; [exact Hnx | split; [exact HJ | exact HK]]].
 Qed.
 
 (* ---------- ungraceful restart: the three branches of InitializeRunningEventFilter ---------- *)
@@ -517,7 +556,7 @@ Proof.
     + (* not initialised since the last restart: only the (empty) cache is dropped *)
       unfold inv in *. unfold do_restart.
       rewrite (ensure_uninit_cache s [] Er). eapply rinv_ext; eauto; reflexivity.
-    + unfold inv, ensure in Hi. rewrite Er in Hi. destruct Hi as [_ [w [nx [H _]]]]. congruence.
+    + unfold inv, ensure in Hi. rewrite Er in Hi. destruct Hi as [_ [_ [w [nx [H _]]]]]. congruence.
     + assert (rinv W s) by (unfold inv in Hi; rewrite (ensure_ready _ _ _ Er) in Hi; auto).
       eapply restart_init_ok_lemma; eauto.
   - apply inv_set_cache. auto.
@@ -535,7 +574,8 @@ Lemma inv_init : inv init_state.
 Proof.
   unfold inv, ensure, init_state. simpl. apply rinv_J. simpl.
   exists (empty_window 0), 0.
-  split; [reflexivity | split; [reflexivity | apply J_empty]].
+  split; [reflexivity | split; [reflexivity | split; [apply J_empty |]]].
+  intros k pw Hl. simpl in Hl. discriminate.
 Qed.
 
 End Inv.
